@@ -196,6 +196,47 @@ def run(ctx, rep):
         rep.ob("R18.2", "TCPRegistryServer._recv: a failing receive closes the accepted socket", bad is None,
                "every exceptional path out of recv() closes the socket" if bad is None else
                "when recv() fails (timeout/reset) the accepted socket is leaked", ctx.loc(r), witness=ctx.path(bad) if bad else None)
+    # a receive that is repeated must notice end-of-stream: recv() on a closed peer returns b'' at once, for ever
+    for r in recvs:
+        back = Q.find_path_ef([r], lambda x: x is r, lambda a, b, l: l != "exc")
+        if back is None:
+            continue      # not in a loop
+        buf = r.ast.targets[0].id if isinstance(r.ast, ast.Assign) and len(r.ast.targets) == 1 and \
+            isinstance(r.ast.targets[0], ast.Name) and isinstance(r.ast.value, ast.Call) else None
+        spin = back
+        if buf is not None:
+            def nonempty_only(a, b, l, buf=buf):
+                if l == "exc":
+                    return False
+                if a.kind == "test":
+                    e = a.ast
+                    if isinstance(e, ast.Name) and e.id == buf:
+                        return l == "true"
+                    if isinstance(e, ast.Call) and A.call_name(e) == "len" and A.src(e.args[0]) == buf:
+                        return l == "true"
+                return True
+            # cycles that remain when only the non-empty edges of tests on the chunk are followed are fine; a cycle through
+            # the *empty* edge (or with no test at all) spins
+            def empty_ok(a, b, l, buf=buf):
+                if l == "exc":
+                    return False
+                if a.kind == "test":
+                    e = a.ast
+                    if (isinstance(e, ast.Name) and e.id == buf) or (
+                            isinstance(e, ast.Call) and A.call_name(e) == "len" and e.args and A.src(e.args[0]) == buf):
+                        return l == "false"
+                return True
+            tests = [n for n in gr.live if n.kind == "test" and (
+                (isinstance(n.ast, ast.Name) and n.ast.id == buf) or
+                (isinstance(n.ast, ast.Call) and A.call_name(n.ast) == "len" and n.ast.args and A.src(n.ast.args[0]) == buf))]
+            spin = Q.find_path_ef([r], lambda x: x is r, empty_ok) if tests else back
+            if tests and spin is not None and not any(x in tests for x in spin):
+                pass      # a cycle that avoids the emptiness test altogether
+        rep.ob("R18.2", "TCPRegistryServer._recv: a repeated receive stops at end-of-stream", spin is None,
+               "an empty chunk leaves the loop" if spin is None else
+               "recv() is repeated in a loop that does not test the received chunk for emptiness: once the client has closed, "
+               "recv() returns b'' immediately and the registry's only thread spins in _recv for ever (it answers nobody and "
+               "close() cannot stop it)", ctx.loc(r), witness=ctx.path([r] + spin) if spin else None)
     for cq in (TCP, UDP):
         init = ctx.func(cq + ".__init__")
         st = [c for c in A.calls(init.node) if (A.call_name(c) or "").endswith(".settimeout")]
